@@ -18,7 +18,7 @@ META = {
 RULE = ("case = (library spec, type order, preserve_comments); non-trivial = the library has >= 2 blocks of one class with equal keys or a "
         "comment run directly above a non-comment block; distinct = distinct (library, order, mode)")
 ASSUMPTIONS = ["no two live entries/strings of the input share a key (Library wraps them when the input is built)"]
-MIN = {"permutation": (100000, 1000000), "sorted_stable": (50000, 500000), "comments_attached": (50000, 500000), "input_untouched": (100000, 1000000)}
+MIN = {"permutation": (100000, 1000000), "sorted_stable": (50000, 500000), "comments_attached": (50000, 500000), "input_untouched": (100000, 1000000), "edited_library": (10000, 100000)}
 
 UNIVERSE = [
     ["string", "a", "{x}"], ["string", "b", "{y}"], ["preamble", "p1"], ["preamble", "p2"],
@@ -61,6 +61,18 @@ def cases(tier, seed, shard, nshards):
                         # start lines that do NOT follow library order (merged files, re-inserted blocks)
                         specs = [s + [{"line": 100 - 10 * j}] for j, s in enumerate(specs)]
                     yield {"lib": specs, "order": ORDERS[oi], "pc": mode}
+    # libraries that were EDITED after construction (seed C16-l: a duplicate marker whose first block was removed is a block like
+    # any other): every library of 2..3 universe blocks with one block removed / removed and re-added, a sample of the orders
+    stride = tier_pick(tier, 53, 11)
+    for n in (2, 3):
+        for sel in itertools.permutations(range(len(UNIVERSE)), n):
+            for j in range(n):
+                for oi in range((idx + j) % stride, len(ORDERS), stride):
+                    idx += 1
+                    if idx % nshards != shard:
+                        continue
+                    for mode in (False, True):
+                        yield {"lib": [UNIVERSE[i] for i in sel], "order": ORDERS[oi], "pc": mode, "hist": [["remove" if oi % 3 else "readd", j]]}
     r = rng_for(seed, shard, "c16")
     for _ in range(tier_pick(tier, 12000, 1200000) // nshards):
         n = r.randint(4, 40) if r.random() < 0.99 else r.randint(257, 300)
@@ -77,7 +89,11 @@ def cases(tier, seed, shard, nshards):
                 s = s + [{"line": r.randint(0, 50)}]
             specs.append(s)
         order = r.choice(ORDERS) if r.random() < .8 else None
-        yield {"lib": specs, "order": order, "pc": r.random() < .5, "reuse": r.randint(0, 50) if r.random() < .3 else None}
+        c = {"lib": specs, "order": order, "pc": r.random() < .5, "reuse": r.randint(0, 50) if r.random() < .3 else None}
+        if r.random() < .3:
+            c["hist"] = [r.choice([["remove", r.randrange(n)], ["readd", r.randrange(n)], ["add", r.choice(UNIVERSE)], ["replace", r.randrange(n), r.choice(UNIVERSE)]])
+                         for _ in range(r.choice([1, 1, 2, 3, 8]))]
+        yield c
 
 
 _INSTANCES = {}
@@ -106,6 +122,8 @@ def check(case, ctx):
     from bibtexparser import model as M
     specs, order, pc = case["lib"], case["order"], case["pc"]
     lib = build.library(specs)
+    if case.get("hist") and build.apply_history(lib, case["hist"]):
+        ctx.mon("edited_library")
     if case.get("reuse") is not None and len(lib.blocks) >= 2:
         # the same separator-comment OBJECT re-used at a second position (object identity, not just equal content)
         from bibtexparser.library import Library
